@@ -302,14 +302,14 @@ def ob_quadrature(seed):
     return Ob("C20.integrated.quadrature", "B", body, clause="closed form equals numerical integration (bounded)", funcs=FUNCS)
 
 
-def _history_world(kind):
+def _history_world(kind, dtype=torch.float64):
     """make(indices) for specs.histories.explore over the REAL smoothing / integrated priors"""
     import torchtree.distributions.gmrf as gm
     import torchtree.distributions.gmrf_integrated as gi
     import torchtree.evolution.coalescent as co
     from torchtree.core.parameter import Parameter
     from specs import treemodels
-    t64 = lambda v: torch.tensor(v, dtype=torch.float64)
+    t64 = lambda v: torch.tensor(v, dtype=dtype)
     names = ["A", "B", "C", "D"]
     tree = ((0, 1), (2, 3))
     tips = [0.0, 0.5, 0.0, 1.0]
@@ -427,6 +427,25 @@ def replay_json_variants(args):
     return True, "held"
 
 
+def ob_dtype(kind):
+    def body():
+        from specs import histories
+        bad, n, notes = histories.dtype_consistency(lambda dt: _history_world(kind, dt), (None, (1, 1, 1), (2, 2, 2)))
+        if bad is not None:
+            raise Refuted("%s: float32 inputs at %s give %s (%s), float64 inputs give %s" % ((kind,) + bad), witness={"kind": kind},
+                          replay={"kind": "custom", "contract": "C20", "func": "replay_dtype", "args": {"kind": kind}}, confirmed=True)
+        return {"backend": "heap", "cases": n, "trivial": n == 0, "raised": "; ".join(sorted(set(notes))), "statement": "%s: float32 evaluation equals the float64 one to 1e-4 (%d points)" % (kind, n)}
+    return Ob("C20.dtype[%s]" % kind, "B", body, clause="the density does not depend on the floating-point type the inputs are written in (to single precision)", funcs=FUNCS)
+
+
+def replay_dtype(args):
+    try:
+        ob_dtype(args["kind"]).fn()
+    except Refuted as e:
+        return False, e.detail
+    return True, "held"
+
+
 def replay_history(args):
     try:
         ob_history(args["kind"], args["depth"]).fn()
@@ -439,6 +458,7 @@ def obligations(tier, seed):
     obs = []
     for kind in HISTORY_KINDS:
         obs.append(ob_history(kind, 3 if tier == "quick" else 4))
+        obs.append(ob_dtype(kind))
     obs.append(ob_json_variants())
 
     def add(name, factory, args, clause, **kw):
